@@ -100,6 +100,16 @@ def _execute(case):
             da = xr.DataArray(x.reshape(shape), dims=dims)
             if case.get("dask"):
                 da = da.chunk({d: 1 for d in dims if d != "time"})
+            if case["tid"] % 2 == 0:
+                # xarray keeps one accessor object per array: an earlier call under another nodata attribute (changed in
+                # place afterwards) must leave no trace - a result depends on the array's present state and the arguments only
+                da.attrs["nodata"] = STALE
+                try:
+                    da.hdc.rolling.sum(max(1, case["w"] - 1))
+                except Exception:
+                    pass
+                da.attrs.pop("nodata")
+                case["primed"] = True
             if case.get("attr") is not None:
                 da.attrs["nodata"] = case["attr"]
             r = da.hdc.rolling.sum(case["w"], nodata=case["nd"])
@@ -121,10 +131,18 @@ def _execute(case):
             case["inmod"] = w_.changed()
         else:
             da = xr.DataArray(x.reshape(1, 1, -1), dims=["y", "x", "time"])
-            if case.get("attr") is not None:          # the argument must win over the attribute
-                da.attrs["nodata"] = case["attr"]
             if case.get("dask"):
                 da = da.chunk({"y": 1, "x": 1})
+            if case["tid"] % 2 == 0:                    # history of the same object (see rolling sum above)
+                da.attrs["nodata"] = STALE
+                try:
+                    da.hdc.algo.mean_grp(g)
+                except Exception:
+                    pass
+                da.attrs.pop("nodata")
+                case["primed"] = True
+            if case.get("attr") is not None:          # the argument must win over the attribute
+                da.attrs["nodata"] = case["attr"]
             r = da.hdc.algo.mean_grp(g, nodata=case["nd"]).transpose(..., "time")
             case["y"] = strs(np.asarray(r).reshape(-1))
     elif op == "meanpair":
@@ -133,6 +151,9 @@ def _execute(case):
             x = np.array(case["x" + s], dtype=case["dtype"])
             case["y" + s] = strs(mean_grp(x, g, case["ng"], case["nd" + s]))
     return case
+
+
+STALE = 4242
 
 
 def swap_sentinel(x, nd1, nd2):
